@@ -8,8 +8,9 @@
     allow_encoded_slashes ([r]) -> what the upstream receives.  [execute] is
     ruleImpl.Execute + Backend.CreateURL on the request view [u];
     [rewrite_request] is what heimdall hands to its HTTP client.  [fx] says which
-    repairs the modelled tree contains ([repaired] = /repo as it is, [repaired2] =
-    with fixes/C15-F6.diff and fixes/C15-F7.diff).
+    repairs the modelled tree contains ([repaired] = the tree before 5270ed2 /
+    f228b67, i.e. with C15-F1 and -F4 repaired; [repaired2] = /repo as it is, also
+    C15-F6 (5270ed2) and C15-F7 (f228b67) repaired; [current] = before 41fd1db).
 
     Clauses that are definitions of the model rather than theorems (the body is
     passed through, the method is the view's, scheme / Host line / request line
@@ -95,7 +96,7 @@ Print Assumptions C15_query_only_removed_pinned.
 
 (** "query changed ONLY by the removed parameters", byte for byte: the settings
     naming a parameter to remove are gone, every other setting is there as it came,
-    in the original order — with fixes/C15-F6.diff always, before outside C15-F6 *)
+    in the original order — since 5270ed2 always, before outside C15-F6 *)
 Theorem C15_query_kept_bytes : forall m names q,
   qf1 m = true -> (qf6 m = true \/
     (negb (is_nil names) && negb (is_empty q) && negb (snd (parse_query q)) &&
@@ -156,8 +157,8 @@ Proof. exact no_forwarded_passthrough. Qed.
 Print Assumptions C15_no_forwarded_passthrough.
 
 (** whichever of X-Forwarded-For / Forwarded carries this request's forwarding
-    information is the received chain ([chain]: all field lines with
-    fixes/C15-F7.diff, the first line before) extended by the peer; the
+    information is the received chain ([chain]: all field lines since f228b67,
+    the first line before) extended by the peer; the
     connection's own scheme (TLS or not) is what `proto=` says *)
 Theorem C15_forwarded_extended_by_peer : forall fx q pl r tls m uri host hs body,
   serve fx q pl r = Forwarded tls m uri host hs body ->
@@ -178,8 +179,9 @@ Theorem C15_header_names_any_casing : forall n n',
 Proof. exact canon_key_any_casing. Qed.
 Print Assumptions C15_header_names_any_casing.
 
-(** THE WHOLE STATEMENT: for a tree with the repairs that are in /repo (and
-    possibly those of C15-F6 / -F7), every request (any bytes; [oracle_ok]: not
+(** THE WHOLE STATEMENT: for a tree with the repairs of C08-F2, C13-F3, C15-F1,
+    C15-F4 and — as in /repo — those of C15-F6 / -F7 (which make the two
+    disjunctive hypotheses trivially true; see C15_spec_holds_repo), every request (any bytes; [oracle_ok]: not
     C15-F9, a trusted X-Forwarded-Uri that is no valid encoded path), every pipeline
     output and every rule / rewrite configuration on which none of the open
     findings shows: what is forwarded (or that nothing is) satisfies every
@@ -195,6 +197,14 @@ Theorem C15_spec_holds : forall fx q pl r,
   spec_ok q pl r (serve fx q pl r) = true.
 Proof. exact spec_holds. Qed.
 Print Assumptions C15_spec_holds.
+
+(** ... and read for /repo as it is: no hypothesis about C15-F6 / -F7 is left *)
+Theorem C15_spec_holds_repo : forall q pl r,
+  oracle_ok q = true ->
+  guard_F2 q = false -> guard_F3 q r = false -> guard_F5 r = false -> guard_F8 pl r = false ->
+  spec_ok q pl r (serve repaired2 q pl r) = true.
+Proof. exact spec_holds_repaired2. Qed.
+Print Assumptions C15_spec_holds_repo.
 
 (** sequences: every request of every sequence served by one rule instance,
     whatever came before it, is forwarded as the statement says.  (The model is
@@ -212,7 +222,8 @@ Theorem C15_sequence_spec_holds : forall fx r reqs n q pl,
 Proof. exact sequence_spec_holds. Qed.
 Print Assumptions C15_sequence_spec_holds.
 
-(** the repaired findings (pinned behaviour and the same input after the repair) *)
+(** the repaired findings: the behaviour before the named commit and the same input after the repair
+    (C15-F1 41fd1db, C15-F4 35453b2, C15-F6 5270ed2, C15-F7 f228b67) *)
 Theorem C15_F1_pinned_refuted : exists q pl r,
   guard_F1 q r = true /\ spec_ok q pl r (serve current q pl r) = false /\
   forwarded_uri (serve current q pl r) = "/x?a=1&b=%zz" /\
@@ -227,7 +238,22 @@ Theorem C15_F4_pinned_refuted : exists q pl r,
 Proof. exact F4_pinned_refuted. Qed.
 Print Assumptions C15_F4_pinned_refuted.
 
-(** the open findings, each with its witness (F6, F7: also what the repair candidate gives) *)
+Theorem C15_F6_pinned_refuted : exists q pl r,
+  guard_F6 q r = true /\ spec_ok q pl r (serve repaired q pl r) = false /\
+  forwarded_uri (serve repaired q pl r) = "/x?a=~&b=1" /\
+  spec_ok q pl r (serve repaired2 q pl r) = true /\ forwarded_uri (serve repaired2 q pl r) = "/x?b=1&a=%7E".
+Proof. exact F6_pinned_refuted. Qed.
+Print Assumptions C15_F6_pinned_refuted.
+
+Theorem C15_F7_pinned_refuted : exists q pl r,
+  guard_F7 q = true /\ spec_ok q pl r (serve repaired q pl r) = false /\
+  forwarded_field "X-Forwarded-For" (serve repaired q pl r) = ["10.0.0.1, 127.0.0.2"] /\
+  spec_ok q pl r (serve repaired2 q pl r) = true /\
+  forwarded_field "X-Forwarded-For" (serve repaired2 q pl r) = ["10.0.0.1, 10.0.0.2, 127.0.0.2"].
+Proof. exact F7_pinned_refuted. Qed.
+Print Assumptions C15_F7_pinned_refuted.
+
+(** the open findings, each with its witness *)
 Theorem C15_F2_refuted : exists q pl r,
   guard_F2 q = true /\ spec_ok q pl r (serve repaired2 q pl r) = false /\
   q_method q = "PROPFIND" /\ forwarded_method (serve repaired2 q pl r) = "GET".
@@ -248,28 +274,16 @@ Theorem C15_F5_refuted :
 Proof. exact F5_refuted. Qed.
 Print Assumptions C15_F5_refuted.
 
-Theorem C15_F6_refuted : exists q pl r,
-  guard_F6 q r = true /\ spec_ok q pl r (serve repaired q pl r) = false /\
-  forwarded_uri (serve repaired q pl r) = "/x?a=~&b=1" /\
-  spec_ok q pl r (serve repaired2 q pl r) = true /\ forwarded_uri (serve repaired2 q pl r) = "/x?b=1&a=%7E".
-Proof. exact F6_refuted. Qed.
-Print Assumptions C15_F6_refuted.
-
-Theorem C15_F7_refuted : exists q pl r,
-  guard_F7 q = true /\ spec_ok q pl r (serve repaired q pl r) = false /\
-  forwarded_field "X-Forwarded-For" (serve repaired q pl r) = ["10.0.0.1, 127.0.0.2"] /\
-  spec_ok q pl r (serve repaired2 q pl r) = true /\
-  forwarded_field "X-Forwarded-For" (serve repaired2 q pl r) = ["10.0.0.1, 10.0.0.2, 127.0.0.2"].
-Proof. exact F7_refuted. Qed.
-Print Assumptions C15_F7_refuted.
-
 Theorem C15_F9_refuted : exists q pl r,
   guard_F9 q = true /\ spec_ok q pl r (serve repaired2 q pl r) = false /\
   option_map u_rawpath (view_url q) = Some "/%zz" /\ forwarded_uri (serve repaired2 q pl r) = "/".
 Proof. exact F9_refuted. Qed.
 Print Assumptions C15_F9_refuted.
 
-(** C15-F8 is outside the model; the witness is an observation of the assembled application *)
+(** C15-F8 is outside the model (the OpenTelemetry transport wrapper is not modelled): this
+    theorem says nothing about model or code, only that [spec_ok] rejects the observation made on
+    the assembled application with tracing enabled (e2e stream, rule r0, on every run: evidence
+    known_findings_observed C15-F8) *)
 Theorem C15_F8_observed_refuted : exists q pl r o,
   guard_F8 pl r = true /\ spec_ok q pl r o = false /\
   line_values "Traceparent" (p_headers pl) = ["from-pipeline"] /\
@@ -277,16 +291,31 @@ Theorem C15_F8_observed_refuted : exists q pl r o,
 Proof. exact F8_observed_refuted. Qed.
 Print Assumptions C15_F8_observed_refuted.
 
-(** the hypotheses of C15_spec_holds are satisfiable by a request that exercises every sentence *)
+(** the hypotheses of C15_spec_holds / C15_spec_holds_repo are satisfiable by a request that
+    exercises every sentence (untrusted peer, TLS, colliding and empty pipeline headers, cookies) ... *)
 Theorem C15_nonvacuous :
   oracle_ok nv_req = true /\
   guard_F2 nv_req = false /\ guard_F3 nv_req nv_rule = false /\ guard_F5 nv_rule = false /\
   guard_F6 nv_req nv_rule = false /\ guard_F7 nv_req = false /\ guard_F8 nv_pl nv_rule = false /\
-  serve repaired nv_req nv_pl nv_rule =
+  serve repaired2 nv_req nv_pl nv_rule =
     Forwarded true "POST" "/up/v1%2Fx/%3Bq%41?b=%2F&c=" "up:8080"
       [("Accept", ["*/*"]); ("Accept-Encoding", ["gzip"]); ("Authorization", ["Bearer t"]);
        ("Cookie", ["c=1; sid=1"]); ("Forwarded", ["for=127.0.0.9;host=h.example.com;proto=https"]);
        ("X-Role", [""]); ("X-User", ["alice"; "second"])] "{""a"":1}" /\
-  spec_ok nv_req nv_pl nv_rule (serve repaired nv_req nv_pl nv_rule) = true.
+  spec_ok nv_req nv_pl nv_rule (serve repaired2 nv_req nv_pl nv_rule) = true.
 Proof. exact nonvacuous. Qed.
 Print Assumptions C15_nonvacuous.
+
+(** ... and by a request of a TRUSTED peer: the chain in two X-Forwarded-For lines is extended by
+    the peer, X-Forwarded-Uri / -Host define the view, the kept query settings arrive byte for byte *)
+Theorem C15_nonvacuous_trusted :
+  oracle_ok nv2_req = true /\
+  guard_F2 nv2_req = false /\ guard_F3 nv2_req nv2_rule = false /\ guard_F5 nv2_rule = false /\
+  guard_F8 no_pl nv2_rule = false /\ guard_F9 nv2_req = false /\
+  serve repaired2 nv2_req no_pl nv2_rule =
+    Forwarded false "GET" "/o%2Fp?b=1&a=%7E&&c" "up:8080"
+      [("Accept-Encoding", ["gzip"]); ("X-Forwarded-For", ["10.0.0.1, 10.0.0.2, 127.0.0.2"]);
+       ("X-Forwarded-Host", ["orig.example.com"]); ("X-Forwarded-Proto", ["http"])] "" /\
+  spec_ok nv2_req no_pl nv2_rule (serve repaired2 nv2_req no_pl nv2_rule) = true.
+Proof. exact nonvacuous_trusted. Qed.
+Print Assumptions C15_nonvacuous_trusted.
